@@ -115,6 +115,10 @@ def run(chk, prog, tier):
     roles = PL.Roles(prog)
     chk.analysed["roles"] = roles.describe()
     fresh_record_rule(chk, prog, roles)
+    PL.zero_read_rule(chk, prog, roles)
+    # errno is process-wide state that survives from one line (and one instance) to the next: it is read only after being cleared
+    from checks import C15
+    C15.errno_rule(chk, prog)
     # E2: no hidden state
     from checks import C18
     objs = C18.static_objects(prog)
@@ -178,6 +182,16 @@ def run(chk, prog, tier):
                     l, r = strip(kids(m)[0]), strip(kids(m)[1], casts=True)
                     if l.get("kind") == "MemberExpr" and l.get("name") == "offset" and r.get("kind") == "CallExpr" and callee_name(r) == roles.driver:
                         okk = True
+                    # ... or through a local that holds nothing but the driver's result
+                    if l.get("kind") == "MemberExpr" and l.get("name") == "offset" and r.get("kind") == "DeclRefExpr":
+                        defs = [x for x in walk(prog.body(f)) if x.get("kind") == "VarDecl" and x.get("id") == (r.get("referencedDecl") or {}).get("id")]
+                        asg = [x for x in walk(prog.body(f)) if x.get("kind") in ("BinaryOperator", "CompoundAssignOperator") and x.get("opcode", "").endswith("=") and
+                               x.get("opcode") not in ("==", "!=", "<=", ">=") and strip(kids(x)[0]).get("kind") == "DeclRefExpr" and
+                               (strip(kids(x)[0]).get("referencedDecl") or {}).get("id") == (r.get("referencedDecl") or {}).get("id")]
+                        if defs and kids(defs[0]) and not asg:
+                            i0 = strip(kids(defs[0])[-1], casts=True)
+                            if i0.get("kind") == "CallExpr" and callee_name(i0) == roles.driver:
+                                okk = True
             chk.require(okk, "E4", "E4/store/%s" % fn, loc_str(f), "%s stores the driver's result into <instance>->offset" % fn, "no such store")
     # growth in the middle of a call keeps the code emitted so far (see C08)
     from checks import C08
